@@ -455,8 +455,31 @@ func (fr *Frame) exec(ins ssa.Instruction) {
 		fr.deferArgs = append(fr.deferArgs, deferRec{x, args, fr.value(x.Call.Value), fr.curReach})
 	case *ssa.TypeAssert:
 		fr.typeAssert(x)
-	case *ssa.Range, *ssa.Next:
-		unsupported("range over map/string in %s", fr.fn)
+	case *ssa.Range:
+		if _, ok := x.X.Type().Underlying().(*types.Map); !ok {
+			unsupported("range over string in %s", fr.fn)
+		}
+		// the iterator is the map itself
+		fr.vals[x] = fr.value(x.X)
+	case *ssa.Next:
+		if x.IsString {
+			unsupported("range over string in %s", fr.fn)
+		}
+		// Iteration over a map, over-approximated: each step either stops or yields SOME key currently in the map
+		// (order, multiplicity and completeness of the visit are not modelled; sound for invariants and safety).
+		rng, ok := x.Iter.(*ssa.Range)
+		if !ok {
+			unsupported("map iterator of unknown origin in %s", fr.fn)
+		}
+		mt := rng.X.Type().Underlying().(*types.Map)
+		m := fr.value(x.Iter).term()
+		okT := FreshVar("mapnext_ok", SBool)
+		k := FreshVar("mapnext_key", sortOf(mt.Key()))
+		c.typeAssume(k, mt.Key(), fr.curReach)
+		c.assume(Implies(okT, And(Not(Eq(m, BVLit(0, 64))), fr.mapHas(mt, m, k))))
+		v := fr.mapGet(mt, m, k)
+		c.note("range over a map: modelled as an arbitrary sequence of present keys")
+		fr.vals[x] = Val{Tuple: []Val{{T: okT}, {T: k}, {T: v}}}
 	case *ssa.Go, *ssa.Send, *ssa.Select:
 		unsupported("concurrency in %s", fr.fn)
 	case *ssa.SliceToArrayPointer:
